@@ -12,8 +12,8 @@ Open Scope Z_scope.
    that is passed on reaches every current child exactly once, unchanged (user, ticket, query),
    and nothing is written anywhere else: not to the parent, not to candidates or other
    non-children, not to closed connections, not to the server.  (Full statement: F10 repaired.) *)
-Theorem C14_fanout_exact : forall query evs e k u t q,
-  let s := run14 query init evs in
+Theorem C14_fanout_exact : forall query blocked evs e k u t q,
+  let s := run14 query blocked init evs in
   forwarded s e = Some (k, u, t, q) ->
   (forall c, In c (children s) -> conn_of c (forward s e) = [CSearch k u t q]) /\
   (forall c, ~ In c (children s) -> conn_of c (forward s e) = []) /\
@@ -36,37 +36,53 @@ Proof. exact others_forwarded. Qed.
 
 (* Own searches are neither forwarded nor answered, whatever carrier brings them, from any state
    with a session.  (Full statement: F17 repaired.) *)
-Theorem C14_own_not_forwarded_or_answered : forall query s k t q, session s = true ->
-  (forward s (ServerSearch k me t q) = [] /\ answer query s (ServerSearch k me t q) = []) /\
-  (forall c, forward s (DistSearch c k me t q) = [] /\ answer query s (DistSearch c k me t q) = []) /\
-  (forall c code, forward s (LegacySearch c code k me t q) = [] /\ answer query s (LegacySearch c code k me t q) = []).
+Theorem C14_own_not_forwarded_or_answered : forall query blocked s k t q, session s = true ->
+  (forward s (ServerSearch k me t q) = [] /\ answer query blocked s (ServerSearch k me t q) = []) /\
+  (forall c, forward s (DistSearch c k me t q) = [] /\ answer query blocked s (DistSearch c k me t q) = []) /\
+  (forall c code, forward s (LegacySearch c code k me t q) = [] /\ answer query blocked s (LegacySearch c code k me t q) = []).
 Proof. exact own_all. Qed.
 
 (* Answer: for a search of another user, from any state with a session, every carrier produces
    exactly one reply (to the asker, same ticket, own name, the visible and locked lists of the
    query) iff one of the lists is non-empty; a legacy message with another code does nothing. *)
-Theorem C14_answer_exact : forall query s u t q k, session s = true -> Nat.eqb u me = false ->
-  answer query s (ServerSearch k u t q) = expected_answer query u t q /\
-  (forall c, live c s = true -> answer query s (DistSearch c k u t q) = expected_answer query u t q) /\
+Theorem C14_answer_exact : forall query blocked s u t q k, session s = true -> Nat.eqb u me = false -> blocked u = false ->
+  answer query blocked s (ServerSearch k u t q) = expected_answer query u t q /\
+  (forall c, live c s = true -> answer query blocked s (DistSearch c k u t q) = expected_answer query u t q) /\
   (forall c code, live c s = true -> legacy_code_ok code = true ->
-     answer query s (LegacySearch c code k u t q) = expected_answer query u t q) /\
+     answer query blocked s (LegacySearch c code k u t q) = expected_answer query u t q) /\
   (forall c code, legacy_code_ok code = false ->
-     answer query s (LegacySearch c code k u t q) = [] /\ forward s (LegacySearch c code k u t q) = []).
+     answer query blocked s (LegacySearch c code k u t q) = [] /\ forward s (LegacySearch c code k u t q) = []).
 Proof. exact answer_exact. Qed.
+
+(* A user blocked for searches (Settings.users.blocked, a parameter like the query) gets no answer
+   through any carrier; the forwarding theorems above have no hypothesis about the block list: the
+   request of a blocked user is passed on to the children like any other. *)
+Theorem C14_blocked_not_answered : forall query blocked s u t q k, blocked u = true ->
+  answer query blocked s (ServerSearch k u t q) = [] /\
+  (forall c, answer query blocked s (DistSearch c k u t q) = []) /\
+  (forall c code, answer query blocked s (LegacySearch c code k u t q) = []).
+Proof. exact blocked_not_answered. Qed.
+
+(* The source still sends to the children by independent queued sends (one write fault or one slow
+   child does not affect the others: explored by the harness). *)
+Theorem C14_children_sends_independent : children_send_independent = true.
+Proof. reflexivity. Qed.
 
 (* non-vacuity: a tree with parent 1 and children 2, 3; a search of user 4 coming from the parent
    is forwarded to both children and answered once when the query has results; the own search
    through the same carrier is dropped *)
 Definition nvq : name -> nat -> list nat * list nat := fun u q => if Nat.eqb q 1 then ([7%nat; 8%nat], [9%nat]) else ([], []).
+Definition nvb : name -> bool := fun u => Nat.eqb u 6.
 Definition nv14 : list ev14 :=
   map Tree [SessionInit; PeerInit 1%nat 1%nat true; BranchLevel 1%nat 3; BranchRoot 1%nat 5%nat; PeerInit 2%nat 2%nat false; PeerInit 3%nat 3%nat false]
   ++ [DistSearch 1%nat 49 4%nat 11 0%nat].
 Example C14_nonvacuous :
-  let s := run14 nvq init nv14 in
+  let s := run14 nvq nvb init nv14 in
   forwarded s (DistSearch 1%nat 49 4%nat 12 1%nat) = Some (49, 4%nat, 12, 1%nat) /\
   children s = [2%nat; 3%nat] /\ parent s = Some 1%nat /\ session s = true /\
   forward s (DistSearch 1%nat 49 4%nat 12 1%nat) = [OConn 2%nat (CSearch 49 4%nat 12 1%nat); OConn 3%nat (CSearch 49 4%nat 12 1%nat)] /\
-  answer nvq s (DistSearch 1%nat 49 4%nat 12 1%nat) = [mkReply 4%nat 12 me [7%nat; 8%nat] [9%nat]] /\
-  answer nvq s (DistSearch 1%nat 49 4%nat 12 0%nat) = [] /\
-  forward s (DistSearch 1%nat 49 me 12 1%nat) = [] /\ answer nvq s (DistSearch 1%nat 49 me 12 1%nat) = [].
-Proof. vm_compute. repeat split; reflexivity. Qed.
+  answer nvq nvb s (DistSearch 1%nat 49 4%nat 12 1%nat) = [mkReply 4%nat 12 me [7%nat; 8%nat] [9%nat]] /\
+  answer nvq nvb s (DistSearch 1%nat 49 4%nat 12 0%nat) = [] /\
+  forward s (DistSearch 1%nat 49 me 12 1%nat) = [] /\ answer nvq nvb s (DistSearch 1%nat 49 me 12 1%nat) = [] /\
+  answer nvq nvb s (DistSearch 1%nat 49 6%nat 12 1%nat) = [] /\ forward s (DistSearch 1%nat 49 6%nat 12 1%nat) <> [].
+Proof. vm_compute. repeat split; try reflexivity. discriminate. Qed.
